@@ -28,7 +28,15 @@ fn check_debug(s: &dyn Subject, key0: &[u8], key: &[u8]) -> Result<(), (String, 
     if a != b {
         return Err((a, b, "debug-key-dependent"));
     }
-    let id = leading_ident(&b).to_ascii_lowercase();
+    // every rendering (plain, {:#?}, {:x?}, {:#X?}, padded) must name the type; the padded one may have leading spaces
+    for part in b.split('\u{1}') {
+        let id = leading_ident(part.trim_start()).to_ascii_lowercase();
+        let names = s.type_names();
+        if !names.iter().any(|n| n.to_ascii_lowercase() == id) {
+            return Err((format!("text starting with one of {:?}", names), part.to_string(), "debug-wrong-name"));
+        }
+    }
+    let id = leading_ident(b.split('\u{1}').next().unwrap()).to_ascii_lowercase();
     let names = s.type_names();
     if !names.iter().any(|n| n.to_ascii_lowercase() == id) {
         return Err((format!("text starting with one of {:?}", names), b, "debug-wrong-name"));
